@@ -295,6 +295,6 @@ def run_roundtrip(case, ctx):
 
 def subs(tier):
     return [
-        Sub("roundtrip", run_roundtrip, strategy=roundtrip_case(), quick=2400, thorough=60000,
+        Sub("roundtrip", run_roundtrip, strategy=roundtrip_case(), quick=2400, thorough=400000,
             shards_quick=12, shards_thorough=16),
     ]
